@@ -10,7 +10,8 @@ LEVEL = 'exploration'
 RULE = ('random sequences of assignments (plain and augmented) to position/'
         'rotation/scale of 1-4 Transform2D/Transform3D instances with 0-3 '
         'listeners each (listeners may watch two transforms and any subset of '
-        'the three events); rotations are ints/dyadic floats in [-2000,2000] '
+        'the three events, and may be value-like: distinct listeners that '
+        'compare and hash equal, or define __eq__ without __hash__); rotations are ints/dyadic floats in [-2000,2000] '
         'incl. multiples of 360 and negatives. Oracle after every assignment: '
         'one notification per matching listener of that transform, value == '
         'immediate read-back, 2D rotation read-back in [0,360) and congruent '
@@ -30,7 +31,10 @@ ANCHORS = [
 ]
 MIN_NONTRIVIAL = {'quick': 300, 'thorough': 5000}
 MIN_STATS = {'notifications_checked': 1000}
-ASSUMPTIONS = ['rotation inputs are dyadic rationals so that % 360 is exact',
+ASSUMPTIONS = ['rotation inputs are dyadic rationals so that % 360 is exact, except '
+               'a few values whose residue lies within rounding distance of '
+               '360 (judged: in [0, 360) and within 2^-40 of the residue on the '
+               'circle)',
                'what a listener reads from the transform *during* the '
                'notification is recorded but not judged (not in the statement)']
 
@@ -41,6 +45,11 @@ EVENTS = {'position': 'on_position_change', 'rotation': 'on_rotation_change',
 
 def _rot(rng):
     k = rng.random()
+    if k < 0.04:
+        # tiny negative values (and values just below a multiple of 360):
+        # the exact residue lies within rounding distance of 360
+        return rng.choice([-2.0 ** -60, -2.0 ** -30, -1e-20, -5e-324,
+                           360 - 2.0 ** -44, -2.0 ** -45, 720 - 2.0 ** -43])
     if k < 0.2:
         return rng.choice([0, 360, -360, 720, -720, 1080, 359, 361, -1, 1])
     if k < 0.5:
@@ -104,7 +113,10 @@ def gen_one(rng, tier):
             chains.append([li, target, prop,
                            _value(rng, transforms[target]['dim'], prop)])
     return {'transforms': transforms, 'listeners': listeners, 'ops': ops,
-            'chains': chains}
+            'chains': chains,
+            # value-like listeners: distinct listeners that compare and hash
+            # equal ('unhashable': __eq__ without __hash__)
+            'eq': rng.choice([None] * 7 + ['equal', 'equal', 'unhashable'])}
 
 
 def gen_cases(tier, seed):
@@ -153,6 +165,11 @@ def run_case(case):
                         nested.append((target, cprop, getattr(t2, cprop),
                                        inner))
             ns[EVENTS[prop]] = cb
+        if case.get('eq'):
+            ns['__eq__'] = lambda self, other: hasattr(other, 'uid')
+            ns['__hash__'] = (lambda self: 5) if case['eq'] == 'equal' \
+                else None
+            res.tags['value_like_listeners'].add(case['eq'])
         cls = desper.event_handler(*[EVENTS[p] for p in events])(
             type(f'L{uid}', (), ns))
         obj = cls()
@@ -223,6 +240,12 @@ def run_case(case):
                 inside = 0 <= back < 360
                 congruent = ((_exact(assigned) - _exact(back)) / 360
                              ).denominator == 1
+                residue = _exact(assigned) % 360
+                if not congruent and float(residue) != residue:
+                    # the exact residue is no float: nearest on the circle
+                    res.stats['rotation_residues_not_representable'] += 1
+                    diff = abs(_exact(back) - residue)
+                    congruent = min(diff, 360 - diff) <= Fraction(1, 2 ** 40)
             except (TypeError, ValueError):
                 inside = congruent = False
             if not (inside and congruent):
